@@ -15,7 +15,7 @@ A world (JSON-able dict):
   searchers  list of {'honours_rebuild': bool, 'ans': {m: 'fresh' | 'absent' | 'error' | 'normal'}}
   borrowers  list of {'texts': bool, 'ans': {m: 'has' | 'absent' | 'error'}}
   wrerr      [m...]  the writer raises PySmiWriterError for m
-  opts       {noDeps, rebuild, dryRun, genTexts, writeMibs, ignoreErrors}
+  opts       {noDeps, rebuild, dryRun, genTexts, writeMibs, ignoreErrors, dstTemplate (a copy of the stock template)}
 """
 import json
 
@@ -254,6 +254,28 @@ class Writer(object):
         self.log.append(('written', mibname))
 
 
+_template = []
+
+
+def template_copy():
+    """A verbatim copy of the stock JSON template under another name in a scratch directory (option dstTemplate)."""
+    import atexit
+    import os
+    import shutil
+    import tempfile
+    import pysmi.codegen.jsondoc as jd
+    if not _template or not os.path.exists(_template[0]):
+        d = tempfile.mkdtemp(prefix='mctmpl', dir=os.environ.get('VERIF_TMP') or ('/dev/shm' if os.path.isdir('/dev/shm') else None))
+        src = os.path.join(os.path.dirname(jd.__file__), 'templates', jd.JsonCodeGen.TEMPLATE_NAME)
+        dst = os.path.join(d, 'site-json.j2')
+        shutil.copy(src, dst)
+        del _template[:]
+        _template.append(dst)
+        pid = os.getpid()
+        atexit.register(lambda: os.getpid() == pid and shutil.rmtree(d, ignore_errors=True))
+    return _template[0]
+
+
 def run_world(world, budget=4000):
     """-> observation dict: status map (or escaped exception), the call log, generated payloads."""
     log = Log()
@@ -268,6 +290,8 @@ def run_world(world, budget=4000):
     comp.addBorrowers(*[AnyFileBorrower(BorrowReader(i, b, log), genTexts=b.get('texts', False))
                         for i, b in enumerate(world.get('borrowers', []))])
     opts = dict(default_opts(), **world.get('opts', {}))
+    if opts.get('dstTemplate'):
+        opts['dstTemplate'] = template_copy()
     obs = {'log': log, 'produced': codegen.produced, 'injected': log.injected}
     try:
         res = comp.compile(*world['req'], **opts)
